@@ -1,14 +1,18 @@
 import RimeModel.Basic.Hex
 import RimeModel.C14.Doc
+import RimeModel.C14.Custom
 /-!
 line protocol for C14 (one document set per `case … end` block):
 
     case <id>
     doc <namehex> <tree>            tree ::= n | s <hex> | l <k> <tree>*k | m <k> (<keyhex> <tree>)*k
-    compile <namehex>
+    compile <namehex>               (the name may carry the `.yaml` extension: `ToResourceId` strips it)
+    customize <namehex> <n> (<keyhex> <tree>)*n     (one CustomSettings session on <name>'s custom document)
     edit <mt:0|1> <keyhex> <tree value> <tree target>     (unit op: EditNode on a bare slot)
     end
 
+per `customize`: cust <id> <namehex> first=… loaded=… modified=… saved=… first_after=…
+                 custfile <tree>|none
 per `compile`:   res <id> <namehex> loaded=… ok=… dirty=… fuel=… crash=…
                  mem <tree>
                  saved <tree>|none
@@ -59,6 +63,21 @@ structure St where
 
 def St.lookup (s : St) : Docs := fun n => (s.docs.find? fun d => d.1 == n).map (·.2)
 
+partial def parsePairs : Nat → List String → Option (List (Str × Tree) × List String)
+  | 0, r => some ([], r)
+  | n + 1, kh :: r => do
+    let key ← Hex.decode kh
+    let (t, r') ← parseTree r
+    let (rest, r'') ← parsePairs n r'
+    pure ((key, t) :: rest, r'')
+  | _, [] => none
+
+/-- the five fields `Signature::Sign` writes, with the values the harness fixes / blanks -/
+def signFields : List (Str × Str) :=
+  [("generator".toUTF8.toList, "verif".toUTF8.toList), ("modified_time".toUTF8.toList, "T".toUTF8.toList),
+   ("distribution_code_name".toUTF8.toList, "verif".toUTF8.toList), ("distribution_version".toUTF8.toList, "1".toUTF8.toList),
+   ("rime_version".toUTF8.toList, "V".toUTF8.toList)]
+
 def stripBuildInfo : Tree → Tree
   | .map kvs => .map (mapErase kvs [95, 95, 98, 117, 105, 108, 100, 95, 105, 110, 102, 111])
   | t => t
@@ -75,12 +94,28 @@ def step (st : St) (line : String) : St × List String :=
   | ["compile", nh] =>
     match Hex.decode nh with
     | some name =>
-      let r := compileDoc st.lookup 10000 400 name
+      let r := compileDoc st.lookup 10000 400 (toResourceId name)
       (st, ["res " ++ st.id ++ " " ++ nh ++ " loaded=" ++ b01 r.loaded ++ " ok=" ++ b01 r.fl.ok ++
               " dirty=" ++ b01 r.fl.dirty ++ " fuel=" ++ b01 r.fl.fuelOut ++ " crash=" ++ b01 r.fl.crash,
             "mem " ++ showTree (stripBuildInfo r.mem),
             "saved " ++ (match r.saved with | some t => showTree (stripBuildInfo t) | none => "none")])
     | none => (st, ["bad-op"])
+  | "customize" :: nh :: n :: toks =>
+    match Hex.decode nh, n.toNat? with
+    | some name, some k =>
+      match parsePairs k toks with
+      | some (kvs, []) =>
+        let cname := customOf name
+        let r := customSession (st.lookup cname) signFields kvs
+        let docs' := match r.file with
+          | some t => (st.docs.filter fun d => d.1 != cname) ++ [(cname, t)]
+          | none => st.docs
+        ({ st with docs := docs' },
+          ["cust " ++ st.id ++ " " ++ nh ++ " first=" ++ b01 r.firstBefore ++ " loaded=" ++ b01 r.loaded ++
+             " modified=" ++ b01 r.modified ++ " saved=" ++ b01 r.saved ++ " first_after=" ++ b01 (isFirstRun r.file),
+           "custfile " ++ (match r.file with | some t => showTree t | none => "none")])
+      | _ => (st, ["bad-op"])
+    | _, _ => (st, ["bad-op"])
   | "edit" :: mt :: kh :: toks =>
     match Hex.decode kh, parseTree toks with
     | some key, some (v, rest) =>
